@@ -43,6 +43,7 @@ pub fn dispatch(id: &str, tier: Tier, replay: Option<&str>, budget: Duration) ->
         let doc: serde_json::Value = serde_json::from_str(&text).expect("parse replay file");
         match id {
             "C05" | "C18" => e1::replay(id, &doc["case"], &mut report),
+            "C19" if doc["case"]["agent"].is_string() => _ = e6::c19_slice(&mut report),
             "C19" => e7::replay(&doc["case"], &mut report),
             _ => {
                 // generic replay: the enumeration is deterministic, so the recorded case is executed again by
@@ -118,7 +119,11 @@ pub fn run_check(id: &str, report: &mut Report, budget: Duration) -> bool {
         }
         "C13" => c13::run(report),
         "C14" => c14::run(report),
-        "C19" => e7::run(report),
+        "C19" => {
+            e7::run(report);
+            let n = e6::c19_slice(report);
+            report.set("end_to_end_daemon_runs", n);
+        }
         "C11" => e5::run_c11(report, budget),
         "C17" => e5::run_c17(report, budget),
         "C04" => e6::run_c04(report),
